@@ -1093,6 +1093,46 @@ func runServerConc(t *Trace, seed int64, rounds int) error {
 					if r.Intn(8) == 0 {
 						mi = 0 // a client of the static file
 					}
+					if r.Intn(3) == 0 && atomic.LoadInt32(&wedged) == 0 {
+						// a datagram the server refuses before the plugins see it (does not parse, a reply opcode, a message type a
+						// server does not answer, a relay message without a message inside): whatever the server does about it -
+						// dropping, logging - it does while the other goroutines reuse the receive buffers
+						var junk []byte
+						proto := 4 + 2*r.Intn(2)
+						if proto == 4 {
+							d, _ := dhcpv4.NewDiscovery(srvMacs[mi])
+							switch r.Intn(3) {
+							case 0:
+								junk = d.ToBytes()[:100+r.Intn(130)]
+							case 1:
+								d.OpCode = dhcpv4.OpcodeBootReply
+								junk = d.ToBytes()
+							default:
+								junk = make([]byte, 20+r.Intn(400))
+								r.Read(junk)
+							}
+						} else {
+							m, _ := dhcpv6.NewSolicit(srvMacs[mi])
+							switch r.Intn(3) {
+							case 0:
+								junk = m.ToBytes()[:3+r.Intn(8)]
+							case 1:
+								m.MessageType = dhcpv6.MessageTypeAdvertise
+								junk = m.ToBytes()
+							default:
+								junk = append([]byte{12, 0}, make([]byte, 32)...) // a Relay-Forward header with no Relay Message option
+							}
+						}
+						peer := &net.UDPAddr{IP: net.IPv4(10, 0, 0, 9), Port: 68}
+						if proto == 6 {
+							peer = &net.UDPAddr{IP: net.ParseIP("fe80::99"), Port: 546}
+						}
+						fr := feed(l4, l6, proto, junk, 7, peer)
+						if fr.res == "wedged" || fr.res == "slow" {
+							atomic.StoreInt32(&wedged, 1)
+						}
+						t.Emit(Ev{"fam": "server", "ev": "dg", "proto": proto, "kind": "conc", "mut": "refused", "len": len(junk), "res": fr.res, "n": fr.n, "msg": fr.msg, "match": true, "static": true})
+					}
 					if r.Intn(2) == 0 {
 						d, _ := dhcpv4.NewDiscovery(srvMacs[mi])
 						if r.Intn(2) == 0 {
